@@ -39,6 +39,14 @@ FLAGS = [(False, False), (True, False), (False, True), (True, True)]
 
 def run(ctx):
     feat = C.draw_features(ctx)
+    # disjunctive / universal preconditions are evaluated wrongly by the library (recorded findings under C04), but only
+    # in the direction "reported applicable although false"; C03 quantifies over calls that ARE applicable, so such
+    # domains are legitimate workload here (their effects must still be applied correctly)
+    nested = ctx.s("cfg").draw(4)
+    if nested == 0:
+        feat["or_pre"] = True
+    elif nested == 1:
+        feat["forall_pre"] = True
     W = C.World(ctx, feat)
     ops = ctx.s("ops")
     S, trail = C.ref_walk(ctx, W, ops.draw(4))
